@@ -21,6 +21,7 @@ fn gen_cfg() -> GenCfg {
     g.item_renames = true;
     g.readonly = true;
     g.keyword_item_names = true;
+    g.capital_kw_fields = true;
     g
 }
 
@@ -123,6 +124,7 @@ impl SubCheck for C10 {
                                     // drop identifiers/paths: keep the generic wording of the message
                                     let m = msg.as_str();
                                     if m.contains("is not a generic class") || m.starts_with("typing.Union[") { "not-a-generic-class".to_string() }
+                                    else if m.contains("'TypeVar' object is not subscriptable") && case.items.iter().any(|i| !i.generics.is_empty() && matches!(&i.kind, Kind::Alias { ty } | Kind::Struct { shape: Shape::Newtype(ty), .. } if matches!(ty.peel(), Ty::Param(_)))) { "TypeVar-not-subscriptable/generic-alias-to-bare-parameter".to_string() }
                                     else if m.contains("is not subscriptable") { "not-subscriptable".to_string() }
                                     else { m.split_whitespace().filter(|w| w.chars().all(|c| c.is_ascii_lowercase())).take(5).collect::<Vec<_>>().join("-") }
                                 };
